@@ -18,3 +18,10 @@ package basic
 //@ ensures[successful-reload-publishes-the-complete-new-map] ret0 == nil ==> stored("htpasswdMap.users") && ret1(createHtpasswdMap) == nil
 //@     && ret1(ReadAll) == nil
 //@ at call Unlock assert[publish-under-write-lock] called(Lock)
+
+// ------------------------------------------------------------------ C01: a basic credential "verifies" only if the stored hash matches
+//@ func (*htpasswdMap).Validate
+//@ prop C01 C20
+//@ ensures[only-if-the-stored-hash-verifies-the-password] result ==>
+//@     (called(CompareHashAndPassword) && ret(CompareHashAndPassword) == nil && bytes(arg(CompareHashAndPassword, 1)) == password)
+//@     || (called(EncodeToString) && bytes(arg(EncodeToString, 1)) == hsum(1, "", password))
